@@ -25,9 +25,9 @@ Inductive c03case :=
 | Mix (sub rev : bool) (a : Z) (n unit_n : Z) (out : res Z) (unit_r lo hi : Z)
     (* bintime value a (ticks) +- a datetime/hightime value given exactly as n/unit_n seconds (rev: other - a);
        result out/unit_r seconds, which must lie in [lo, hi] units and within one unit of the exact value *)
-| MixCmp (lt eq gt lt' eq' gt' : bool) (sgn : Z)
-    (* x ? y and the swapped y ? x for a bintime value against a datetime/hightime value; sgn = sign of the
-       exact difference x - y computed by the harness in rational arithmetic when the comparison is documented to be exact *)
+| MixCmp (lt eq gt lt' eq' gt' : bool) (differs : Z)
+    (* x ? y and the swapped y ? x for a bintime value against a datetime/hightime value; differs = 1 when a
+       second object holding the same tick value (reached without the history) answered any of the six differently *)
 .
 
 Definition rz_eqb := res_eqb Z.eqb.
@@ -88,7 +88,7 @@ Definition c03_spec_ok (c : c03case) : bool :=
   | DtSubDt t u out => rz_eqb out (spec_from_ticks (t - u))
   | MulRat a x out => mulrat_ok a x out
   | Mix sub rev a n unit_n out unit_r lo hi => mix_ok sub rev a n unit_n out unit_r lo hi
-  | MixCmp lt eq gt lt' eq' gt' sgn =>
+  | MixCmp lt eq gt lt' eq' gt' differs =>
       one_of3 lt eq gt && Bool.eqb lt gt' && Bool.eqb gt lt' && Bool.eqb eq eq'
-      && (match sgn with 0 => true | _ => true end)
+      && (differs =? 0)
   end.
